@@ -9,12 +9,19 @@ import (
 // Virtual time. The clock only moves when the scheduler says so: at quiescence (to the earliest
 // pending timer) or, as a bounded deviation, early for one parked timer.
 
+// ManualNow, when set by a checker that runs the library without the scheduler (sync-only instrumentation), answers
+// the library's clock reads (time.Now / Since / Until): the checker decides how much time passes between two operations.
+var ManualNow func() time.Time
+
 var timeBase = time.Date(2024, 1, 1, 0, 0, 0, 0, time.UTC)
 
 // Now is strictly increasing (clock + call counter), like a monotonic clock read.
 func Now() time.Time {
 	x := X
 	if x == nil {
+		if ManualNow != nil {
+			return ManualNow()
+		}
 		return time.Now()
 	}
 	// A reading that is a function of the happens-before DAG (not of the interleaving): the clock plus
